@@ -17,7 +17,7 @@
 From Coq Require Import List Bool Arith ZArith.
 Import ListNotations.
 From Stab.model Require Import Base StatusM Readiness StageStat Engine.
-From Stab.proofs Require Import ReadinessP StartGuardP EngineP EngineEx.
+From Stab.proofs Require Import ReadinessP StartGuardP EngineP EngineEx SynP.
 
 Theorem C03_ready_iff : forall st ups,
   rr_phase (evaluate_readiness st ups false) = P_READY <-> join_condition st ups.
@@ -49,6 +49,20 @@ Proof.
   intros orc s id i t a p H. apply pre_run_task in H. destruct H as [_ [_ [st [tk [H1 [H2 [H3 _]]]]]]]. eauto.
 Qed.
 
+(* synthetic stages: a parent's first task is started by ContinueParentStage only in the BEFORE phase and only when
+   every before stage ended in a continuable status; StartStage handling starts it directly only when the stage has
+   no initial before stage (persisted, or planned in that very commit) *)
+Theorem C03_parent_tasks_after_before_stages : forall s id i o k t c,
+  In c (h_commits (handle_continue_parent s id i o k)) -> In (OPush (MStartTask i t)) c ->
+  o = OwnBefore /\ t = 0 /\ forallb in_continuable (map (status_at s) (kids s i OwnBefore)) = true
+  /\ existsb in_halt (map (status_at s) (kids s i OwnBefore)) = false.
+Proof. exact continue_parent_start_task. Qed.
+
+Theorem C03_start_stage_before_stages_first : forall s i st t,
+  In (MStartTask i t) (first_msgs s i st) ->
+  filter (initial_at s) (kids s i OwnBefore) = [] /\ new_initial (length (w_stages s)) (new_before s i st) = [].
+Proof. exact first_msgs_start_task. Qed.
+
 (* non-vacuity: a diamond-free chain: B is NOT READY while A runs, READY once A succeeded *)
 Example C03_witness :
   rr_phase (evaluate_readiness (rstage_of (ex_stage [0] 1)) [(0, RUNNING)] false) = P_NOT_READY /\
@@ -62,3 +76,5 @@ Print Assumptions C03_halted_upstream.
 Print Assumptions C03_start_guard.
 Print Assumptions C03_start_stage_only.
 Print Assumptions C03_tasks_run_in_running.
+Print Assumptions C03_parent_tasks_after_before_stages.
+Print Assumptions C03_start_stage_before_stages_first.
